@@ -243,39 +243,55 @@ def take_lib_panics(ctx, events):
     return rest
 
 
-def tlc_trace(ctx, module, events_path, shards=1, timeout=1800, per_shard_min=200):
-    """validate an event file with spec/<module>.tla; returns list of bads. Sharded over processes."""
+def tlc_trace(ctx, module, events_path, shards=1, timeout=1800, per_shard_min=200, max_bytes=48 << 20):
+    """validate an event file with spec/<module>.tla; returns list of bads. The events are cut into parts (by count, and so that
+    no part exceeds max_bytes of JSON - TLC's deserialiser holds a whole part in memory) and the parts are validated by at most
+    `shards` TLC processes at a time. max_bytes=None: never cut by size (stateful traces)."""
     events = take_lib_panics(ctx, read_ndjson(events_path))
     n = len(events)
     if n == 0:
         return []
     shards = max(1, min(shards, n // per_shard_min or 1))
     size = (n + shards - 1) // shards
-    procs = []
     cfg = ctx.fresh(module) + ".cfg"
     write_cfg(cfg)
-    for s in range(shards):
-        part = events[s * size:(s + 1) * size]
-        if not part:
-            continue
+    parts = []
+    cur, cur_b = [], 0
+    for e in events:
+        b = len(json.dumps(e)) + 1 if max_bytes else 0
+        if cur and (len(cur) >= size or (max_bytes and cur_b + b > max_bytes)):
+            parts.append(cur)
+            cur, cur_b = [], 0
+        cur.append(e)
+        cur_b += b
+    if cur:
+        parts.append(cur)
+    jobs = []
+    for part in parts:
         pth = ctx.fresh("shard") + ".ndjson"
         write_ndjson(pth, part)
-        meta = ctx.fresh("meta")
+        jobs.append((part, ctx.fresh("meta"), pth))
+
+    def run(job):
+        part, meta, pth = job
         env = dict(os.environ)
         env["TRACE"] = pth
         env["TLC_XMX"] = "-Xmx3g"
         p = subprocess.Popen([TLCW, str(timeout), meta, "-workers", "1", "-config", cfg, module + ".tla"], cwd=SPEC, env=env,
                              stdout=subprocess.PIPE, stderr=subprocess.STDOUT)
-        procs.append((p, part, meta, pth))
-    bads = []
-    for p, part, meta, pth in procs:
         out = p.communicate()[0].decode("utf-8", "replace")
         shutil.rmtree(meta, ignore_errors=True)
-        if p.returncode == 124:
+        return p.returncode, out
+
+    import concurrent.futures
+    with concurrent.futures.ThreadPoolExecutor(max_workers=shards) as ex:
+        results = list(ex.map(run, jobs))
+    bads = []
+    for (part, meta, pth), (rc, out) in zip(jobs, results):
+        if rc == 124:
             raise ToolError("TLC timed out validating %s" % pth)
         consumed = None
         by_i = {e["i"]: e for e in part}
-        nb = 0
         for line in out.splitlines():
             if line.startswith('"BAD '):
                 try:
@@ -285,7 +301,6 @@ def tlc_trace(ctx, module, events_path, shards=1, timeout=1800, per_shard_min=20
                 m = BAD_RE.match(s)
                 i = int(m.group(2))
                 bads.append({"prop": m.group(1), "i": i, "reason": m.group(3), "event": by_i.get(i), "module": module})
-                nb += 1
             elif line.startswith('"CONSUMED '):
                 consumed = int(json.loads(line).split()[1])
         if consumed != len(part) or "No error has been found" not in out:
@@ -333,7 +348,7 @@ def tlc_trace_stateful(ctx, module, events_path, reset_op, shards=8, timeout=180
     # run the buckets in parallel through tlc_trace's machinery: one TLC per bucket file
     import concurrent.futures
     with concurrent.futures.ThreadPoolExecutor(max_workers=shards) as ex:
-        futs = [ex.submit(tlc_trace, ctx, module, p, 1, timeout) for p in ctx._pending]
+        futs = [ex.submit(tlc_trace, ctx, module, p, 1, timeout, 200, None) for p in ctx._pending]
         for f in futs:
             bads += f.result()
     ctx._pending = []
